@@ -2,7 +2,7 @@
     Only pinned statements, each closed by [exact] of a lemma proved elsewhere. *)
 From Coq Require Import String List ZArith Bool.
 From VibeSQL Require Import Value.SqlValue Codec.BinUtf8 Codec.BinDec Codec.BinPrim Codec.BinValue Codec.BinType
-  Codec.BinFile Codec.BinPrimLaws Codec.BinDecLaws Codec.BinValueLaws Codec.BinFileLaws.
+  Codec.BinFile Codec.BinCanon Codec.BinPrimLaws Codec.BinDecLaws Codec.BinValueLaws Codec.BinTypeLaws Codec.BinFileLaws Codec.BinRoundtripLaws Codec.JsonVal Codec.JsonValLaws.
 Import ListNotations.
 Open Scope Z_scope.
 
@@ -64,3 +64,65 @@ Theorem C18_value_roundtrip : forall E b rest,
   snd (read_value E (write_value b ++ rest)) = Ok b rest.
 Proof. exact value_roundtrip. Qed.
 Print Assumptions C18_value_roundtrip.
+
+(** ** column types travel as text (save.rs format_data_type / catalog.rs parse_data_type): the loader
+    takes back exactly the [supported] types ... *)
+Theorem C18_type_roundtrip : forall ty, supported ty = true -> parse_data_type (format_data_type ty) = POk ty.
+Proof. exact type_roundtrip. Qed.
+Print Assumptions C18_type_roundtrip.
+
+(** ... and not the others: INTERVAL, CLOB, BLOB, BIT, user-defined names and NULL make the load fail,
+    TIME WITH TIME ZONE and NAME silently become TIME and VARCHAR(128) *)
+Theorem C18_type_roundtrip_refuted :
+  parse_data_type (format_data_type (TInterval (lit "Day"))) = PErr
+  /\ parse_data_type (format_data_type TClob) = PErr
+  /\ parse_data_type (format_data_type TBlob) = PErr
+  /\ parse_data_type (format_data_type (TBit None)) = PErr
+  /\ parse_data_type (format_data_type (TUserDefined (lit "TINYINT"))) = PErr
+  /\ parse_data_type (format_data_type TNull) = PErr
+  /\ parse_data_type (format_data_type (TTime true)) = POk (TTime false)
+  /\ parse_data_type (format_data_type TName) = POk (TVarchar (Some 128)).
+Proof. exact type_roundtrip_refuted. Qed.
+Print Assumptions C18_type_roundtrip_refuted.
+
+(** ** whole file.  "Same index contents after load" is false of the faithful model: the database
+    T(A) = {1,2,3} with index IA(A) has three index entries; after save_binary / load_binary the tables,
+    rows and index definitions are back but the index is empty (the loader creates the indexes before
+    the rows arrive and Table::insert does not maintain them) *)
+Theorem C18_file_roundtrip_refuted :
+  map (fun i => length (i_entries i)) (d_indexes db_indexed) = [3%nat]
+  /\ load_result E0 (save_binary db_indexed) = Ok (clear_entries db_indexed) []
+  /\ clear_entries db_indexed <> db_indexed.
+Proof. exact file_roundtrip_refuted. Qed.
+Print Assumptions C18_file_roundtrip_refuted.
+
+(** what does hold, for EVERY database satisfying [wf_db] (BinRoundtripLaws.v: no triggers; schema/role/
+    table/column/index names valid UTF-8 shorter than 4 GiB, unique, table names without a dot; every
+    column type [supported]; at least one column per table; every stored row already in normal form
+    ([normalize_row] is the identity on it), every value well-formed and -- for temporal values -- read
+    back by the temporal parser; index names ASCII upper case and unique, index table and columns
+    resolvable; counts below 2^32 / 2^64) and for every trailing content [extra]:
+    loading the saved file returns all schemas, roles, tables, columns, types, nullability, rows (bit
+    for bit, in order) and index definitions, with the index entries emptied, and leaves [extra] unread *)
+Theorem C18_file_roundtrip : forall E d extra,
+  wf_db E d -> load_result E (save_binary d ++ extra) = Ok (clear_entries d) extra.
+Proof. exact file_roundtrip. Qed.
+Print Assumptions C18_file_roundtrip.
+
+(** ** JSON format, value mapping of json.rs ([sql_value_to_json] / [json_value_to_sql]) over an abstract
+    JSON value (the text layer is serde_json's).  Every finite, well-typed, well-formed value comes back
+    identically; the float conversions only need [narrow (widen b) = b] on finite f32 values *)
+Theorem C18_json_value_roundtrip : forall E F ty v,
+  (forall b, 0 <= b < 2 ^ 32 -> finite 32 b = true -> narrow F (widen F b) = b) ->
+  typed ty v = true -> wf_bvalue v = true -> finite_value v = true -> temporal_roundtrips E v ->
+  json_value_to_sql E F (sql_value_to_json F v) ty = POk v.
+Proof. exact json_value_roundtrip. Qed.
+Print Assumptions C18_json_value_roundtrip.
+
+(** NaN and the infinities are written as JSON null and come back as NULL *)
+Theorem C18_json_value_roundtrip_refuted : forall E F,
+  json_value_to_sql E F (sql_value_to_json F (BV (VDouble 9221120237041090560))) TDouble = POk (BV VNull)
+  /\ json_value_to_sql E F (sql_value_to_json F (BV (VDouble 9218868437227405312))) TDouble = POk (BV VNull)
+  /\ json_value_to_sql E F (sql_value_to_json F (BV (VReal 4286578688))) TReal = POk (BV VNull).
+Proof. exact json_value_roundtrip_refuted. Qed.
+Print Assumptions C18_json_value_roundtrip_refuted.
